@@ -103,17 +103,17 @@ BmStep(bm, acc, cfgs, n, e) ==
     ELSE IF pf = PF_TPCM THEN
        CASE d[1] = CB_RTS ->
               ok(BPut(bm, [key |-> CKey(sa, da), size |-> Rd2(d, 2), total |-> d[4], limit |-> d[5], pgn |-> Rd3(d, 6),
-                           hi |-> 0, nxt |-> 1, lastDt |-> -1, bam |-> FALSE, buf |-> <<>>, start |-> e.t]))
+                           hi |-> 0, nxt |-> 1, lastDt |-> -1, bam |-> FALSE, buf |-> <<>>, start |-> e.t, fresh |-> TRUE]))
          [] d[1] = CB_BAM ->
               ok(BPut(bm, [key |-> CKey(sa, da), size |-> Rd2(d, 2), total |-> d[4], limit |-> 255, pgn |-> Rd3(d, 6),
-                           hi |-> d[4], nxt |-> 1, lastDt |-> -1, bam |-> TRUE, buf |-> <<>>, start |-> e.t]))
+                           hi |-> d[4], nxt |-> 1, lastDt |-> -1, bam |-> TRUE, buf |-> <<>>, start |-> e.t, fresh |-> FALSE]))
          [] d[1] = CB_CTS ->
               IF ~BHas(bm, CKey(da, sa)) THEN ok(bm)
               ELSE LET c == BGet(bm, CKey(da, sa))   num == d[2]   next == d[3] IN
                    IF stack /\ num > c.limit THEN ko("CTS grants more packets than the RTS allows")
                    ELSE IF stack /\ num > cfgs[n].maxc THEN ko("CTS grants more packets than the responder's configured maximum")
                    ELSE IF stack /\ num > 0 /\ num > c.total - next + 1 THEN ko("CTS grants more packets than remain")
-                   ELSE ok(BPut(bm, [c EXCEPT !.hi = IF num = 0 THEN c.nxt - 1 ELSE next + num - 1]))
+                   ELSE ok(BPut(bm, [c EXCEPT !.hi = IF num = 0 THEN c.nxt - 1 ELSE next + num - 1, !.fresh = TRUE]))
          [] d[1] = CB_EOMA ->
               IF ~BHas(bm, CKey(da, sa)) THEN ok(bm)
               ELSE LET c == BGet(bm, CKey(da, sa)) IN
@@ -131,13 +131,14 @@ BmStep(bm, acc, cfgs, n, e) ==
        THEN IF stack THEN ko("data packet without an open connection") ELSE ok(bm)
        ELSE LET c == BGet(bm, CKey(sa, da))   seqn == d[1]
                 gap == e.t - (IF c.lastDt < 0 THEN c.start ELSE c.lastDt)
-                c2 == [c EXCEPT !.nxt = seqn + 1, !.lastDt = e.t, !.buf = @ \o Tail(d)]
+                c2 == [c EXCEPT !.nxt = seqn + 1, !.lastDt = e.t, !.buf = @ \o Tail(d), !.fresh = FALSE]
             IN
             IF stack /\ seqn # c.nxt THEN ko("data packet out of sequence")
             ELSE IF stack /\ seqn > c.hi THEN ko("data packet not cleared by a CTS")
             ELSE IF stack /\ c.bam /\ gap < cfgs[n].bamInt THEN ko("BAM data packets closer than the minimum interval")
             ELSE IF stack /\ ~c.bam /\ cfgs[n].cmdtInt >= 0 /\ c.lastDt >= 0 /\ gap < cfgs[n].cmdtInt
-                 THEN ko("connection-mode data packets closer than the configured minimum interval")
+                 THEN (IF c.fresh THEN ko("connection-mode data packets closer than the configured minimum interval (first packet after a CTS)")
+                       ELSE ko("connection-mode data packets closer than the configured minimum interval (within a window)"))
             ELSE IF stack /\ c.bam /\ cfgs[n].paceMax >= 0 /\ gap > cfgs[n].paceMax THEN ko("BAM data packets further apart than allowed")
             ELSE IF stack /\ Len(d) # 8 THEN ko("data packet is not 8 bytes long")
             ELSE IF stack /\ c2.nxt > c2.total /\ ~DecodesTo(c2, acc, sa, da)
@@ -146,5 +147,6 @@ BmStep(bm, acc, cfgs, n, e) ==
                     THEN (IF c.bam THEN BDel(bm, c.key) ELSE BPut(bm, [c2 EXCEPT !.buf = <<>>]))
                     ELSE BPut(bm, c2))
 
-BmFinal(bm, tr) == {}
+\* in a fault-free scenario every connection-mode transfer is acknowledged and closed in the end
+BmFinal(bm, tr) == IF tr.expect.all /\ \E i \in 1..Len(bm) : ~bm[i].bam THEN {"connection never acknowledged (no end-of-message acknowledge on the bus)"} ELSE {}
 =============================================================================
